@@ -3,6 +3,7 @@ package netpoll
 
 import (
 	"syscall"
+	"unsafe"
 	"runtime"
 	"context"
 	"fmt"
@@ -66,10 +67,10 @@ var vc06Q = []int{vpInputAckAfterBook, vpInputAckBeforeTrigger, vpOnRequestEnter
 
 func vcScenC06(t *vcTrial) {
 	r := t.R
-	if r.intn(1600) == 0 {
+	if r.intn(100) == 0 {
 		// a window a few instructions wide with no hook point inside is reached by volume only:
-		// about once per quick run, some forty times per thorough run
-		vcRunC06SetOnRequestTie(t, 16000)
+		// about sixteen times 6000 rounds per quick run besides the directed trial's 16000
+		vcRunC06SetOnRequestTie(t, 6000)
 		return
 	}
 	if r.chance(12) {
@@ -627,6 +628,17 @@ func vcRunC06SetOnRequestTie(t *vcTrial, rounds int) {
 	workers := 8
 	var before, after int64
 	var wg sync.WaitGroup
+	// placed rounds: the installer is held at SetOnRequest's entry (hook SetOnRequestEnter, on its own
+	// goroutine) until the byte has been delivered and the poller has left that batch
+	vcPointCallback.Store(func(id int, obj uintptr, arg int) {
+		if id != vpSetOnRequestEnter {
+			return
+		}
+		if fn, ok := vc06Placed.Load(obj); ok {
+			fn.(func())()
+		}
+	})
+	defer vcPointCallback.Store(func(id int, obj uintptr, arg int) {})
 	for w := 0; w < workers; w++ {
 		wg.Add(1)
 		go func(wr *vfRng) {
@@ -637,12 +649,18 @@ func vcRunC06SetOnRequestTie(t *vcTrial, rounds int) {
 		}(vfNewRng(t.R.next()))
 	}
 	wg.Wait()
+	t.Stat("setonrequest_placed_rounds", int(atomic.LoadInt64(&vc06PlacedN)))
 	t.Stat("setonrequest_tie_rounds", int(before+after))
 	t.Stat("setonrequest_input_first", int(before))
 	t.Stat("setonrequest_handler_first", int(after))
 	t.Nontrivial = int(before) > rounds/20 && int(after) > rounds/20
 	t.Sig = fmt.Sprintf("setonrequest-tie|balanced=%v", t.Nontrivial)
 }
+
+var (
+	vc06Placed  sync.Map // connection id -> func() run at SetOnRequestEnter
+	vc06PlacedN int64
+)
 
 func vc06TieWorker(t *vcTrial, r *vfRng, rounds int) (before, after int) {
 	lead := 2000 // spin iterations the installer waits after releasing the writer
@@ -674,18 +692,43 @@ func vc06TieWorker(t *vcTrial, r *vfRng, rounds int) (before, after int) {
 		}
 		start := make(chan struct{})
 		wrote := make(chan struct{})
-		go func() {
-			<-start
-			syscall.Write(fds[1], []byte{1})
+		placed := i%8 == 7
+		mark := vcTraceMark()
+		if placed {
+			// the delivery happens while the installer stands at the entry of SetOnRequest, after
+			// anything it may have looked at before the hook and before anything it does after it
+			id := uintptr(unsafe.Pointer(inner))
+			vc06Placed.Store(id, func() {
+				syscall.Write(fds[1], []byte{1})
+				for dl := time.Now().Add(2 * time.Second); time.Now().Before(dl); {
+					if inner.inputBuffer.Len() > 0 && vcPollerDoneWithInput(mark, inner) {
+						atomic.AddInt64(&vc06PlacedN, 1)
+						break
+					}
+					time.Sleep(20 * time.Microsecond)
+				}
+			})
+			c.SetOnRequest(handler)
+			vc06Placed.Delete(id)
 			close(wrote)
-		}()
+		} else {
+			go func() {
+				<-start
+				syscall.Write(fds[1], []byte{1})
+				close(wrote)
+			}()
+		}
 		jit := r.intn(lead/2 + 1)
 		close(start)
-		spin(lead - lead/4 + jit)
-		buffered := inner.inputBuffer.Len() > 0
-		c.SetOnRequest(handler)
+		buffered := true
+		if !placed {
+			spin(lead - lead/4 + jit)
+			buffered = inner.inputBuffer.Len() > 0
+			c.SetOnRequest(handler)
+		}
 		<-wrote
-		if buffered {
+		if placed {
+		} else if buffered {
 			before++
 			lead -= lead / 64
 		} else {
@@ -706,10 +749,11 @@ func vc06TieWorker(t *vcTrial, r *vfRng, rounds int) (before, after int) {
 		}
 		if !ok {
 			// witness: buffered, handler installed, nobody processing, runner alive, still so later
-			if inner.inputBuffer.Len() > 0 && inner.isUnlock(processing) && vcRunnerProgress(5, 5*time.Second) {
+			// (the poller publishes the byte before it looks for the handler: it must have left that batch)
+			if inner.inputBuffer.Len() > 0 && inner.isUnlock(processing) && vcPollerDoneWithInput(mark, inner) && vcRunnerProgress(5, 5*time.Second) {
 				time.Sleep(100 * time.Millisecond)
 				if atomic.LoadInt32(&inv) == 0 && inner.inputBuffer.Len() > 0 && inner.isUnlock(processing) {
-					t.Violate("C06", "stranded_input", "round %d: SetOnRequest raced with the first delivery on a callback-less connection (input seen before installing: %v): %d byte(s) are buffered, the handler is installed, no invocation was started, the processing lock is free and runner canary tasks completed meanwhile", i, buffered, inner.inputBuffer.Len())
+					t.Violate("C06", "stranded_input", "round %d: SetOnRequest raced with the first delivery on a callback-less connection (input seen before installing: %v; delivery placed at the entry of SetOnRequest: %v): %d byte(s) are buffered, the handler is installed, no invocation was started, the processing lock is free and runner canary tasks completed meanwhile", i, buffered, placed, inner.inputBuffer.Len())
 				}
 			} else if atomic.LoadInt32(&inv) == 0 && inner.inputBuffer.Len() == 0 {
 				// not delivered yet (loaded machine): wait for it, no verdict
